@@ -1,5 +1,7 @@
 mod commands;
 mod hooks;
+#[cfg(rip_verif)]
+pub mod verif;
 
 use std::sync::Arc;
 use std::time::{SystemTime, UNIX_EPOCH};
